@@ -302,6 +302,30 @@ pub fn jaop(op: &AOp) -> String {
 
 const N_CHANS: usize = 4;
 
+/// The requests of one of two concurrent clients: operations that do not depend on the clock hook
+/// (it is process-global) apart from local inserts, which all use the same clock reading.
+pub fn gen_concurrent(rng: &mut Rng, uni: &Universe, stats: &mut Stats) -> Vec<AOp> {
+    let docs: Vec<[u8; 32]> = uni.docs.iter().map(|d| d.0).collect();
+    let n = 2 + rng.below(2);
+    let mut h = Vec::new();
+    for _ in 0..n {
+        let ns = docs[rng.below(docs.len().min(2) as u64) as usize];
+        let au = rng.below(uni.authors.len() as u64) as usize;
+        let hash = if rng.chance(1, 2) { HASH_A } else { HASH_B };
+        let len = if hash == HASH_A { 1 } else { 2 };
+        stats.inc("concurrent_request");
+        match rng.below(10) {
+            0..=2 => h.push(AOp::Open { ns, sync: rng.chance(1, 2), sub: None }),
+            3..=4 => h.push(AOp::Close { ns }),
+            5 => h.push(AOp::GetState { ns }),
+            6 => h.push(AOp::SetSync { ns, b: rng.chance(1, 2) }),
+            7 => h.push(AOp::GetExact { ns, au, key: rng.pick(&[&b"a"[..], b"ab"]).to_vec(), ie: true }),
+            _ => h.push(AOp::InsertLocal { ns, au, known: true, key: rng.pick(&[&b"a"[..], b"ab"]).to_vec(), hash, len, now: T0 + 7 }),
+        }
+    }
+    h
+}
+
 pub fn gen_history(pid: &str, rng: &mut Rng, uni: &Universe, stats: &mut Stats) -> Vec<AOp> {
     let mut h = Vec::new();
     let docs: Vec<[u8; 32]> = uni.docs.iter().map(|d| d.0).collect();
@@ -382,6 +406,9 @@ pub fn run(pid: &str, seed: u64, n: usize, out: &Path, _thorough: bool) -> anyho
     for i in 0..n {
         let uni = Universe::new(seed.wrapping_add((i % 4) as u64), 2, 1 + rng.below(3) as usize);
         let ops = gen_history(pid, &mut rng, &uni, &mut stats);
+        let conc_ops: (Vec<AOp>, Vec<AOp>) = if pid == "C14" && rng.chance(1, 2) {
+            (gen_concurrent(&mut rng, &uni, &mut stats), gen_concurrent(&mut rng, &uni, &mut stats))
+        } else { (Vec::new(), Vec::new()) };
         let persistent = rng.chance(1, 6);
         let mut ts = TestStore::new(persistent)?;
         let store = ts.store.take().unwrap();
@@ -412,6 +439,35 @@ pub fn run(pid: &str, seed: u64, n: usize, out: &Path, _thorough: bool) -> anyho
                 hist.push(format!("({}, {}, {})", caop(&uni, op), r, clist(&evs, |(c, ev)| format!("({}, {})", c, cevent(ev)))));
                 jh.push(format!("[\"{}\",\"{}\",{}]", jaop(op), r.replace('"', "'").chars().take(80).collect::<String>(), evs.len()));
             }
+            // two clients at once (C14): each awaits its own requests in order, the two run
+            // concurrently; the replies must be explained by some interleaving
+            let mut conc: Vec<String> = Vec::new();
+            let mut jconc: Vec<String> = Vec::new();
+            if pid == "C14" && !conc_ops.0.is_empty() {
+                client.drain();
+                verif::set_clock(T0 + 7);
+                let mut c1 = Client { handle: client.handle.clone(), txs: Vec::new(), rxs: Vec::new(), author_ids: client.author_ids.clone() };
+                let mut c2 = Client { handle: client.handle.clone(), txs: Vec::new(), rxs: Vec::new(), author_ids: client.author_ids.clone() };
+                let (ops1, ops2) = (conc_ops.0.clone(), conc_ops.1.clone());
+                let t1 = tokio::spawn(async move { let mut r = Vec::new(); for op in &ops1 { r.push(c1.apply(op, unknown).await); tokio::task::yield_now().await; } r });
+                let t2 = tokio::spawn(async move { let mut r = Vec::new(); for op in &ops2 { r.push(c2.apply(op, unknown).await); tokio::task::yield_now().await; } r });
+                let (r1, r2) = (t1.await?, t2.await?);
+                for (ops, rs) in [(&conc_ops.0, r1), (&conc_ops.1, r2)] {
+                    let mut items = Vec::new();
+                    let mut jitems = Vec::new();
+                    for (op, r) in ops.iter().zip(rs) {
+                        let r = r?;
+                        items.push(format!("({}, {})", caop(&uni, op), r));
+                        jitems.push(format!("[\"{}\",\"{}\"]", jaop(op), r.replace('"', "'").chars().take(60).collect::<String>()));
+                    }
+                    conc.push(format!("[{}]", items.join("; ")));
+                    jconc.push(format!("[{}]", jitems.join(",")));
+                }
+                client.drain();
+            } else {
+                conc.push("[]".into());
+                conc.push("[]".into());
+            }
             // shutdown hands the store back; a request issued by another task at the same moment
             // (queued behind the shutdown request) must be answered, not left waiting forever
             let h2 = client.handle.clone();
@@ -428,8 +484,8 @@ pub fn run(pid: &str, seed: u64, n: usize, out: &Path, _thorough: bool) -> anyho
                 fin.push(format!("({}, {})", n256(&d.0), clist(&l, centry)));
             }
             drop(store);
-            let coq = format!("(mkCase {} [{}] [{}] {})", code, hist.join("; "), fin.join("; "), cbool(inflight_answered));
-            let json = format!("{{\"store\":\"{}\",\"history\":[{}],\"request_in_flight_at_shutdown_answered\":{}}}", if persistent { "file" } else { "memory" }, jh.join(","), inflight_answered);
+            let coq = format!("(mkCase {} [{}] {} {} [{}] {})", code, hist.join("; "), conc[0], conc[1], fin.join("; "), cbool(inflight_answered));
+            let json = format!("{{\"store\":\"{}\",\"history\":[{}],\"two_concurrent_clients\":[{}],\"request_in_flight_at_shutdown_answered\":{}}}", if persistent { "file" } else { "memory" }, jh.join(","), jconc.join(","), inflight_answered);
             anyhow::Ok((coq, json, interesting))
         })?;
         stats.add("requests", ops.len() as u64);
